@@ -351,8 +351,13 @@ pub fn run(tier: Tier) -> i32 {
         }
         if map.iter().any(|p| p.is_some()) {
             cjobs.push((map.clone(), all.clone(), rows.clone(), Container::Vcf, "repeated-entry".into()));
-            cjobs.push((map.clone(), all.clone(), rows.clone(), Container::Vcf, "grouped-by-population".into()));
-            cjobs.push((map.clone(), all.clone(), rows.clone(), Container::Bcf, "grouped-by-population".into()));
+            // (the every-row call set is invariant under permutations of the samples, so a sample
+            // credited to another sample's population would be invisible on it: use a subset of rows
+            // that no permutation of the samples maps onto itself)
+            let asym: Vec<Vec<Cls>> = rows.iter().enumerate().filter(|(i, _)| [0usize, 2, 3].contains(&(i % 7))).map(|(_, r)| r.clone()).collect();
+            let asym_cs = callset_from_rows(s, &asym, 1);
+            cjobs.push((map.clone(), asym_cs.clone(), asym.clone(), Container::Vcf, "grouped-by-population".into()));
+            cjobs.push((map.clone(), asym_cs, asym, Container::Bcf, "grouped-by-population".into()));
         }
         for p in ["0", "1", "6", "17"] {
             cjobs.push((map.clone(), all.clone(), rows.clone(), Container::Vcf, format!("precision-{p}")));
